@@ -1,5 +1,6 @@
 import MuduoVerif.Proofs.ConnCb
 import MuduoVerif.Proofs.ConnBlocks
+import MuduoVerif.Proofs.ConnSkelTie
 /-!
 # C13 — write-complete and high-water-mark callbacks track the unsent backlog exactly
 
@@ -116,5 +117,28 @@ theorem crossing_test (old rem mark : Nat) (has : Bool) :
 example :
     let c : Conn := { st := .kConnected, mark := 10, outBuf := [0, 0, 0, 0], ch := { evWrite := true, evRead := true, slot := .added, watch := true } }
     (sendInLoop c [1, 2, 3, 4, 5, 6, 7, 8] false).pending = [Task.highWater 12] := by decide
+
+/-- T1, statement order: in every `TcpConnection` member function the model implements (and in
+`Channel::handleEventWithGuard`) the source performs the same significant actions - state stores, channel
+operations, callbacks, hand-offs to the loop, member calls, system calls, buffer operations - in the same order
+and under the same nesting of the generated guards as `Model/Conn.lean` (`Model/ConnSkelDecl.lean`); re-extracted
+from /repo on every run (`Generated/ConnSkel.lean`), proved in `Proofs/ConnSkelTie.lean` -/
+theorem statement_order_tied :
+    Gen.ConnSkel.sendInLoop = ConnSkel.Decl.sendInLoop ∧
+    Gen.ConnSkel.shutdown = ConnSkel.Decl.shutdown ∧
+    Gen.ConnSkel.shutdownInLoop = ConnSkel.Decl.shutdownInLoop ∧
+    Gen.ConnSkel.forceClose = ConnSkel.Decl.forceClose ∧
+    Gen.ConnSkel.forceCloseWithDelay = ConnSkel.Decl.forceCloseWithDelay ∧
+    Gen.ConnSkel.forceCloseInLoop = ConnSkel.Decl.forceCloseInLoop ∧
+    Gen.ConnSkel.startReadInLoop = ConnSkel.Decl.startReadInLoop ∧
+    Gen.ConnSkel.stopReadInLoop = ConnSkel.Decl.stopReadInLoop ∧
+    Gen.ConnSkel.connectEstablished = ConnSkel.Decl.connectEstablished ∧
+    Gen.ConnSkel.connectDestroyed = ConnSkel.Decl.connectDestroyed ∧
+    Gen.ConnSkel.handleRead = ConnSkel.Decl.handleRead ∧
+    Gen.ConnSkel.handleWrite = ConnSkel.Decl.handleWrite ∧
+    Gen.ConnSkel.handleClose = ConnSkel.Decl.handleClose ∧
+    Gen.ConnSkel.handleError = ConnSkel.Decl.handleError ∧
+    Gen.ConnSkel.handleEventWithGuard = ConnSkel.Decl.handleEventWithGuard :=
+  ConnSkel.skeletons_agree
 
 end MuduoVerif.C13
